@@ -10,6 +10,9 @@
 import RosuModel.Model.Encode
 import RosuModel.Props.C09
 import RosuModel.Props.C14
+import RosuModel.Props.C16
+import RosuModel.Props.C19
+import RosuModel.Lemmas.CurveTotal
 namespace Rosu.C01
 open Rosu
 
@@ -73,5 +76,226 @@ theorem finalize_total_without_sliders (mode : GameMode) (sm : F) (cp : ControlP
     obtain ⟨x', hx'⟩ := hx
     obtain ⟨r, hr⟩ := ih bufs (fun h hh s => hno h (by simp [hh]) s)
     exact ⟨x' :: r, by simp [finalizeObjects, hx', hr, bind, Except.bind, pure, Except.pure]⟩
+
+/-! ### the curve computation cannot panic
+
+`Safe Q r` (Lemmas/CurveTotal.lean): `r` is `.ok a` with `Q a`, or `.error .fuel` — never `.error .panic`.
+Everything below holds for every arithmetic (`Scalar`/`Cvt`/`Trig` instances without any law, hence for the
+IEEE instance), every mode, control-point list, requested length and fuel. The only hypothesis is that the four
+Bezier scratch vectors have equal lengths (`BezierBuffers.WF`), which is true of `CurveBuffers::default()` and
+preserved by every computation. -/
+
+section Curve
+open Rosu.Curve
+
+/-- **`calculate_path` never panics**: `points[i]`, `vertices[start..=i]`, `points[start]`, the empty-slice
+`unreachable`, `points.len() - 1` / `points[0]` in the Catmull code, `sub_points - 1` in the arc code, every
+index / slice / `copy_from_slice` of the Bezier flattening, and `path[path_len - 1]` of the joint
+de-duplication are all in range. The outcome is a value or fuel exhaustion. -/
+theorem calculatePath_no_panic (fuel : Nat) (mode : GameMode) (points : List (PathControlPoint P))
+    (bufs : CurveBuffers P F) (hw : bufs.bezier.WF) :
+    calculatePath fuel mode points bufs ≠ .error .panic :=
+  (calculatePath_safe fuel mode points bufs hw).no_panic
+
+/-- the same as a disjunction, with the well-formedness of the buffers left behind. -/
+theorem calculatePath_ok_or_fuel (fuel : Nat) (mode : GameMode) (points : List (PathControlPoint P))
+    (bufs : CurveBuffers P F) (hw : bufs.bezier.WF) :
+    (∃ r, calculatePath fuel mode points bufs = .ok r ∧ r.1.bezier.WF) ∨
+      calculatePath fuel mode points bufs = .error .fuel :=
+  (calculatePath_safe fuel mode points bufs hw).cases
+
+theorem compute_safe (fuel : Nat) (mode : GameMode) (points : List (PathControlPoint P)) (e : Option F)
+    (bufs : CurveBuffers P F) (hw : bufs.bezier.WF) :
+    Safe (fun b => b.bezier.WF) (compute fuel mode points e bufs) := by
+  unfold compute
+  refine Safe.bind (calculatePath_safe fuel mode points bufs hw) ?_
+  rintro ⟨b1, opt⟩ hb1
+  obtain ⟨r, hr⟩ := C16.calculateLength_total b1.path e opt
+  simp only [hr, Outcome.ok_bind]
+  exact hb1
+
+/-- **`calculate_path` + `calculate_length` never panic** (with C16 `calculateLength_total`). -/
+theorem compute_no_panic (fuel : Nat) (mode : GameMode) (points : List (PathControlPoint P)) (e : Option F)
+    (bufs : CurveBuffers P F) (hw : bufs.bezier.WF) : compute fuel mode points e bufs ≠ .error .panic :=
+  (compute_safe fuel mode points e bufs hw).no_panic
+
+theorem new_safe (fuel : Nat) (mode : GameMode) (points : List (PathControlPoint P)) (e : Option F)
+    (bufs : CurveBuffers P F) (hw : bufs.bezier.WF) :
+    Safe (fun r => r.2.bezier.WF) (Curve.new fuel mode points e bufs) := by
+  unfold Curve.new
+  exact Safe.bind (compute_safe fuel mode points e bufs hw) (fun b hb => hb)
+
+theorem newBorrowed_safe (fuel : Nat) (mode : GameMode) (points : List (PathControlPoint P)) (e : Option F)
+    (bufs : CurveBuffers P F) (hw : bufs.bezier.WF) :
+    Safe (fun r => r.2.bezier.WF) (Curve.newBorrowed fuel mode points e bufs) := by
+  unfold Curve.newBorrowed
+  exact Safe.bind (compute_safe fuel mode points e bufs hw) (fun b hb => hb)
+
+/-- **`Curve::new` never panics.** -/
+theorem new_no_panic (fuel : Nat) (mode : GameMode) (points : List (PathControlPoint P)) (e : Option F)
+    (bufs : CurveBuffers P F) (hw : bufs.bezier.WF) : Curve.new fuel mode points e bufs ≠ .error .panic :=
+  (new_safe fuel mode points e bufs hw).no_panic
+
+/-- **`BorrowedCurve::new` never panics.** -/
+theorem newBorrowed_no_panic (fuel : Nat) (mode : GameMode) (points : List (PathControlPoint P)) (e : Option F)
+    (bufs : CurveBuffers P F) (hw : bufs.bezier.WF) :
+    Curve.newBorrowed fuel mode points e bufs ≠ .error .panic :=
+  (newBorrowed_safe fuel mode points e bufs hw).no_panic
+
+/-- `CurveBuffers::default()` is well-formed (both spellings used by the model). -/
+theorem default_wf : (({} : CurveBuffers P F)).bezier.WF := ⟨rfl, rfl, rfl⟩
+theorem emptyBuffers_wf : (emptyBuffers : CurveBuffers P F).bezier.WF := ⟨rfl, rfl, rfl⟩
+
+/-- buffers reachable from `CurveBuffers::default()` by any history of successful constructor calls. -/
+inductive Reachable : CurveBuffers P F → Prop
+  | default : Reachable {}
+  | owned {fuel mode pts e b c b'} : Reachable b → Curve.new fuel mode pts e b = .ok (c, b') → Reachable b'
+  | borrowed {fuel mode pts e b c b'} : Reachable b → Curve.newBorrowed fuel mode pts e b = .ok (c, b') →
+      Reachable b'
+
+theorem Reachable.wf {b : CurveBuffers P F} (h : Reachable b) : b.bezier.WF := by
+  induction h with
+  | default => exact default_wf
+  | owned _ hn ih => exact (new_safe _ _ _ _ _ ih).elim_ok hn
+  | borrowed _ hn ih => exact (newBorrowed_safe _ _ _ _ _ ih).elim_ok hn
+
+/-- **no history of curve computations on one buffer set can panic.** -/
+theorem new_no_panic_of_reachable (fuel : Nat) (mode : GameMode) (points : List (PathControlPoint P))
+    (e : Option F) (bufs : CurveBuffers P F) (h : Reachable bufs) :
+    Curve.new fuel mode points e bufs ≠ .error .panic ∧ Curve.newBorrowed fuel mode points e bufs ≠ .error .panic :=
+  ⟨new_no_panic fuel mode points e bufs h.wf, newBorrowed_no_panic fuel mode points e bufs h.wf⟩
+
+/-- `calculate_length` leaves at least as many lengths as path points (all five outcomes of
+C16 `calculateLength_some`). -/
+theorem calculateLength_path_le (path : List (Pos P)) (e : Option F) (opt : F) (p' : List (Pos P)) (ls : List F)
+    (h : calculateLength path e opt = .ok (p', ls)) : p'.length ≤ ls.length := by
+  have hnl : path.length ≤ (C16.natLens opt path).length := by
+    simp only [C16.natLens, List.length_cons, C16.cumLens_length]; omega
+  cases e with
+  | none => cases h; exact hnl
+  | some L =>
+    rw [C16.calculateLength_some] at h
+    split at h
+    · cases h; exact hnl
+    split at h
+    · cases h; simp only [List.length_append, List.length_cons, List.length_nil]; omega
+    split at h
+    · cases h; exact hnl
+    split at h
+    · cases h; simp only [List.length_take, List.length_cons, List.length_nil]; omega
+    · cases h
+      have hle := C16.lastValid_le (C16.natLens opt path).dropLast L
+      have : C16.cutIdx opt path L ≤ (C16.natLens opt path).dropLast.length := hle
+      simp only [List.length_append, List.length_take, List.length_cons, List.length_nil]
+      omega
+
+/-- every constructed curve has `lengths` at least as long as `path`, so `position_at` on it never panics either
+(C19 `positionAt_total`). -/
+theorem positionAt_total_on_curve (fuel : Nat) (mode : GameMode) (points : List (PathControlPoint P))
+    (e : Option F) (bufs bufs' : CurveBuffers P F) (c : Curve P F)
+    (h : Curve.new fuel mode points e bufs = .ok (c, bufs')) (q : F) :
+    ∃ p, positionAt c.path c.lengths q = .ok p := by
+  obtain ⟨b1, opt, _, h2⟩ := C16.new_is_calculateLength fuel mode points e bufs bufs' c h
+  exact C19.positionAt_total c.path c.lengths q (calculateLength_path_le _ _ _ _ _ h2)
+
+/-- `SliderPath::curve_with_bufs` / `borrowed_curve` / `curve` never panic. -/
+theorem curveWithBufs_no_panic (fuel : Nat) (sp : SliderPath P F) (bufs : CurveBuffers P F) (hw : bufs.bezier.WF) :
+    sp.curveWithBufs fuel bufs ≠ .error .panic ∧ sp.borrowedCurve fuel bufs ≠ .error .panic ∧
+      sp.getCurve fuel ≠ .error .panic := by
+  have h1 : ∀ b : CurveBuffers P F, b.bezier.WF → Safe (fun _ => True) (sp.curveWithBufs fuel b) := by
+    intro b hb
+    unfold SliderPath.curveWithBufs
+    cases sp.curve with
+    | some c => exact True.intro
+    | none =>
+      simp only []
+      exact Safe.bind (new_safe fuel sp.mode sp.controlPoints sp.expectedDist b hb) (fun _ _ => True.intro)
+  refine ⟨(h1 bufs hw).no_panic, ?_, ?_⟩
+  · unfold SliderPath.borrowedCurve
+    cases sp.curve with
+    | some c => intro h; cases h
+    | none => exact newBorrowed_no_panic _ _ _ _ _ hw
+  · unfold SliderPath.getCurve
+    have : Safe (fun _ => True) (sp.curveWithBufs fuel {} >>= fun x => match x with | (c, sp, _) => pure (c, sp)) := by
+      refine Safe.bind (h1 {} default_wf) ?_
+      rintro ⟨c, sp', b⟩ _
+      exact True.intro
+    exact this.no_panic
+
+end Curve
+
+/-! ### the finaliser cannot panic -/
+
+theorem finalizeObject_safe (mode : GameMode) (sm : F) (cp : ControlPoints F) (h : HitObject F P)
+    (bufs : CurveBuffers P F) (hw : bufs.bezier.WF) :
+    Safe (fun r => r.2.bezier.WF) (finalizeObject mode sm cp h bufs) := by
+  unfold finalizeObject
+  cases h.kind with
+  | slider s =>
+    simp only []
+    refine Safe.bind (new_safe curveFuel s.path.mode s.path.controlPoints s.path.expectedDist bufs hw) ?_
+    rintro ⟨c, b⟩ hb
+    exact hb
+  | circle c => exact hw
+  | spinner c => exact hw
+  | hold c => exact hw
+
+theorem finalizeObjects_safe (mode : GameMode) (sm : F) (cp : ControlPoints F) (hs : List (HitObject F P)) :
+    ∀ (bufs : CurveBuffers P F), bufs.bezier.WF → Safe (fun _ => True) (finalizeObjects mode sm cp hs bufs) := by
+  induction hs with
+  | nil => intro _ _; exact True.intro
+  | cons x rest ih =>
+    intro bufs hw
+    unfold finalizeObjects
+    refine Safe.bind (finalizeObject_safe mode sm cp x bufs hw) ?_
+    rintro ⟨x', b'⟩ hb'
+    simp only []
+    exact Safe.bind (ih b' hb') (fun _ _ => True.intro)
+
+/-- **the finalising loop never panics**: one buffer set is threaded through all sliders of the map; it starts
+well-formed and every `Curve::new` keeps it so. -/
+theorem finalizeObjects_no_panic (mode : GameMode) (sm : F) (cp : ControlPoints F) (hs : List (HitObject F P))
+    (bufs : CurveBuffers P F) (hw : bufs.bezier.WF) : finalizeObjects mode sm cp hs bufs ≠ .error .panic :=
+  (finalizeObjects_safe mode sm cp hs bufs hw).no_panic
+
+theorem HitObjectsState.finish_safe (st : HitObjectsState F P) : Safe (fun _ => True) st.finish := by
+  unfold HitObjectsState.finish
+  simp only []
+  exact Safe.bind (finalizeObjects_safe _ _ _ _ emptyBuffers emptyBuffers_wf) (fun _ _ => True.intro)
+
+/-- **`From<HitObjectsState> for HitObjects` never panics.** -/
+theorem HitObjectsState.finish_no_panic (st : HitObjectsState F P) : st.finish ≠ .error .panic :=
+  (HitObjectsState.finish_safe st).no_panic
+
+theorem BeatmapState.finish_safe (st : BeatmapState F P) : Safe (fun _ => True) st.finish := by
+  unfold BeatmapState.finish
+  exact Safe.bind (HitObjectsState.finish_safe st.hitObjects) (fun _ _ => True.intro)
+
+/-- **`From<BeatmapState> for Beatmap` never panics.** -/
+theorem BeatmapState.finish_no_panic (st : BeatmapState F P) : st.finish ≠ .error .panic :=
+  (BeatmapState.finish_safe st).no_panic
+
+/-- **decode_total, modulo fuel**: for every byte string, decoding a `Beatmap` from an in-memory buffer reads and
+parses without error and the finaliser yields a map — or the model's fuel for one of the two arithmetic loops of
+the curve code (Bezier flattening, `theta_end` adjustment; 2·10⁶ rounds) ran out. It never panics. The same for
+the `HitObjects` decoder; the other seven decoders have no fallible finaliser (`decode_bytes_never_errs`). -/
+theorem decode_total_modulo_fuel (bs : List UInt8) :
+    ∃ st : BeatmapState F P, decodeBytes beatmapDecoder bs = .ok st ∧
+      ((∃ m, st.finish = .ok m) ∨ st.finish = .error .fuel) := by
+  obtain ⟨st, hst⟩ := decode_bytes_never_errs (beatmapDecoder (F := F) (P := P)) bs
+  refine ⟨st, hst, ?_⟩
+  rcases (BeatmapState.finish_safe st).cases with ⟨m, hm, _⟩ | hf
+  · exact Or.inl ⟨m, hm⟩
+  · exact Or.inr hf
+
+theorem decode_hitobjects_total_modulo_fuel (bs : List UInt8) :
+    ∃ st : HitObjectsState F P, decodeBytes hitObjectsDecoder bs = .ok st ∧
+      ((∃ m, st.finish = .ok m) ∨ st.finish = .error .fuel) := by
+  obtain ⟨st, hst⟩ := decode_bytes_never_errs (hitObjectsDecoder (F := F) (P := P)) bs
+  refine ⟨st, hst, ?_⟩
+  rcases (HitObjectsState.finish_safe st).cases with ⟨m, hm, _⟩ | hf
+  · exact Or.inl ⟨m, hm⟩
+  · exact Or.inr hf
+
 
 end Rosu.C01
